@@ -105,6 +105,10 @@ type Corpus struct {
 	// contain the blobref of the claim responsible for the deletion, as well
 	// as the date when that deletion happened.
 	deletes map[blob.Ref][]deletion
+	// partial is the set of blobs that were added while a dependency was
+	// still missing from the index (e.g. a delete claim received before its
+	// target), so that only their meta row is known so far.
+	partial map[blob.Ref]bool
 
 	mediaTags map[blob.Ref]map[string]string // wholeref -> "album" -> "foo"
 
@@ -590,8 +594,20 @@ func (c *Corpus) addKeyID(mm *mutationMap) error {
 }
 
 func (c *Corpus) addBlob(ctx context.Context, br blob.Ref, mm *mutationMap) error {
-	if _, dup := c.blobs[br]; dup {
+	_, dup := c.blobs[br]
+	if dup && !c.partial[br] {
 		return nil
+	}
+	// A blob indexed while one of its dependencies was missing is added
+	// twice: first with little more than its meta row, and again, in full,
+	// once the dependency has arrived.
+	if strings.HasSuffix(mm.kv["have:"+br.String()], "|indexed") {
+		delete(c.partial, br)
+	} else {
+		if c.partial == nil {
+			c.partial = make(map[blob.Ref]bool)
+		}
+		c.partial[br] = true
 	}
 	c.gen++
 	// make sure keySignerKeyID is done first before the actual mutations, even
@@ -606,6 +622,10 @@ func (c *Corpus) addBlob(ctx context.Context, br blob.Ref, mm *mutationMap) erro
 			continue
 		}
 		if !slurpedKeyType[kt] {
+			continue
+		}
+		if dup && kt == "meta" {
+			// already merged when the blob was first, partially, added
 			continue
 		}
 		if err := corpusMergeFunc[kt](c, []byte(k), []byte(v)); err != nil {
